@@ -307,8 +307,60 @@ func (vc *FuncVC) bindContractVars(ct *Contract, callee *ssa.Function, bindings 
 	return vars
 }
 
+// escapeClosures: a closure handed to a callee may run concurrently from then on; whatever its contract lets it
+// assign becomes volatile for the rest of this activation.
+func (vc *FuncVC) escapeClosures(st *State, args []any) {
+	for _, a := range args {
+		c, ok := a.(*Closure)
+		if !ok || c.Fn == nil {
+			continue
+		}
+		ct := vc.eng.spec.Contracts[relName(c.Fn)]
+		if ct == nil {
+			continue
+		}
+		vars := vc.bindContractVars(ct, c.Fn, c.Bindings, nil)
+		sc := vc.newScope(st, vars)
+		for _, asg := range ct.Assigns {
+			func() {
+				defer func() {
+					if r := recover(); r != nil {
+						if _, is := r.(specError); !is {
+							panic(r)
+						}
+					}
+				}()
+				switch x := asg.(type) {
+				case EUnary:
+					if x.Op == "*" {
+						b := sc.eval(x.X)
+						pt := b.GT.Underlying().(*types.Pointer)
+						hn, _ := cellHeap(vc.w.sortOf(pt.Elem()))
+						if st.volatile == nil {
+							st.volatile = map[string]bool{}
+						}
+						st.volatile[hn+"|"+b.T] = true
+					}
+				case ECall:
+					if x.Fn == "contents" && len(x.Args) == 1 {
+						b := sc.eval(x.Args[0])
+						if u, ok := b.GT.Underlying().(*types.Slice); ok {
+							hn, _ := elemsHeap(vc.w.sortOf(u.Elem()))
+							if st.volatile == nil {
+								st.volatile = map[string]bool{}
+							}
+							st.volatile[hn+"|"+app("sarr", b.T)] = true
+						}
+					}
+				}
+			}()
+		}
+	}
+}
+
 func (vc *FuncVC) callContract(st *State, fr *Frame, instr ssa.Instruction, callee *ssa.Function, ct *Contract, bindings []any, args []any, site string) []any {
 	vc.assumed[ct.Name] = true
+	vc.escapeClosures(st, args)
 	vars := vc.bindContractVars(ct, callee, bindings, args)
 	sc := vc.newScope(st, vars)
 	for _, c := range ct.Requires {
